@@ -35,18 +35,26 @@ var recC04 = hx.NewRecorder("C04", genRule+
 	"non-trivial = a state reached after an out-of-order or repeated merge with >=2 heads at some point; distinct = distinct case",
 	"encryption-key blocks live in a separate store and are not part of closure (no encryption in these histories)")
 
+var recC03 = hx.NewRecorder("C03", "histories as C01 but without deletes (create, update of registers of every kind incl. null and of three counters, deliveries in any order between 2-4 nodes, unsigned and signed); "+
+	"then on every node, for EVERY merged commit c of every document: the time-travel read X(cid:c, docID:d) is compared with (1) the ordinary query result recorded on the writing node right after c was written and (2) the causal model over c and its ancestors (counter = sum of increments, register in the causally-latest writes); at a single current head it must equal the ordinary query; "+
+	"non-trivial = the queried commit is not a genesis commit and the document has a counter increment or a multi-parent commit among its ancestors; distinct = distinct case",
+	"time travel at or below a delete commit is not generated (result not specified by this property; covered by the no-hang clause of C08)",
+	"the state right after a local commit is the state of exactly that commit and its ancestors, because a local commit's parents are all of the writer's heads")
+
 type mode struct {
 	rec        *hx.Recorder
 	bias       string
 	perStepC02 bool
 	perStepC04 bool
 	finalC01   bool
+	timeTravel bool
 }
 
 var modes = map[string]mode{
 	"C01": {rec: recC01, finalC01: true},
 	"C02": {rec: recC02, bias: "counters", perStepC02: true},
 	"C04": {rec: recC04, perStepC04: true},
+	"C03": {rec: recC03, bias: "counters", timeTravel: true},
 }
 
 // runOnce executes the case under one property's oracles.
@@ -62,7 +70,15 @@ func runOnce(c Case, id string) (*hx.Failure, simStats) {
 		}
 		return diagnoseMergeError(s, node, msg, err)
 	}
+	recorded := map[string]map[string]any{}
+	s.noDeletes = md.timeTravel
 	s.afterChange = func(s *sim, node int, docs []string) *hx.Failure {
+		if md.timeTravel && s.lastLocal != "" {
+			row, n, r := queryDoc(s.cl.Nodes[node], s.m.commits[s.lastLocal].doc)
+			if n == 1 && r.OK() {
+				recorded[s.lastLocal] = row
+			}
+		}
 		if md.perStepC02 {
 			for _, d := range docs {
 				if f := checkDocAgainstModel(s, node, d); f != nil {
@@ -83,6 +99,11 @@ func runOnce(c Case, id string) (*hx.Failure, simStats) {
 		return nil
 	}
 	f := s.runSteps()
+	if f == nil && md.timeTravel {
+		f = checkTimeTravel(s, recorded)
+		lastHistory = s.history()
+		return f, s.stats
+	}
 	if f == nil {
 		f = s.antiEntropy()
 	}
@@ -176,6 +197,9 @@ func labelsOf(c Case, st simStats) []string {
 	add(st.multiHeads, "multi-heads")
 	add(st.mergeErrors > 0, "merge-error")
 	add(st.aeRounds > 1, "anti-entropy>1-round")
+	add(st.ttMultiParent > 0, "time-travel-below-multi-parent-commit")
+	add(st.ttCounter > 0, "time-travel-with-counter")
+	add(st.ttRemote > 0, "time-travel-on-non-writer-node")
 	return l
 }
 
@@ -185,6 +209,8 @@ func nontrivial(id string, st simStats) bool {
 		return st.concurrentWrites && (st.oooDelivery || st.dupDelivery || st.partialAncestors)
 	case "C02":
 		return (st.partialAncestors || st.dupDelivery) && st.counterIncs >= 2
+	case "C03":
+		return st.ttNontrivial > 0
 	default:
 		return (st.oooDelivery || st.dupDelivery) && st.multiHeads
 	}
@@ -220,6 +246,7 @@ func property(id string) func(t *rapid.T) {
 func TestC01(t *testing.T) { rapid.Check(t, property("C01")) }
 func TestC02(t *testing.T) { rapid.Check(t, property("C02")) }
 func TestC04(t *testing.T) { rapid.Check(t, property("C04")) }
+func TestC03(t *testing.T) { rapid.Check(t, property("C03")) }
 
 func replayID() string {
 	if id := os.Getenv("VERIF_PROPERTY"); id != "" {
